@@ -66,7 +66,7 @@ fn c05_mpq_find_header_no_magic() {
 /// a user-data header whose header_offset points at or beyond the end of the file (any such value) must not
 /// stall the scan
 #[kani::proof]
-#[kani::unwind(6)]
+#[kani::unwind(4)]
 #[kani::stub(std::fmt::format, vio::fmt_stub)]
 fn c05_mpq_find_header_userdata_beyond_eof() {
     let mut a: [u8; 16] = kani::any();
